@@ -110,7 +110,9 @@ def rename(n, m):
     if t == "graph": return ["graph", rv(n[1]), rename(n[2], m)]
     if t == "subselect":
         sp = n[1]
-        return ["subselect", dict(sp, where=rename(sp["where"], m), proj=[m.get(p, p) if isinstance(p, str) else p for p in sp["proj"]])]
+        out = dict(sp, where=rename(sp["where"], m), proj=[m.get(p, p) if isinstance(p, str) else p for p in sp["proj"]])
+        if sp.get("orderby"): out["orderby"] = [[re_(ex), desc] for ex, desc in sp["orderby"]]
+        return ["subselect", out]
     return n
 
 
